@@ -145,7 +145,7 @@ func UploadPack(
 				var shupd packp.ShallowUpdate
 				if !upreq.Depth.IsZero() {
 					if upreq.Depth.Deepen > 0 {
-						if err := getShallowCommits(st, wants, upreq.Depth.Deepen, &shupd); err != nil {
+						if err := getShallowCommits(st, wants, upreq.Shallows, upreq.Depth.Deepen, &shupd); err != nil {
 							writec <- fmt.Errorf("getting shallow commits: %w", err)
 							return
 						}
@@ -318,11 +318,12 @@ func objectsToUpload(st storage.Storer, wants, haves []plumbing.Hash) ([]plumbin
 	return revlist.Objects(st, wants, haves)
 }
 
-func getShallowCommits(st storage.Storer, heads []plumbing.Hash, depth int, upd *packp.ShallowUpdate) error {
+func getShallowCommits(st storage.Storer, heads, clientShallows []plumbing.Hash, depth int, upd *packp.ShallowUpdate) error {
 	var i, curDepth int
 	var commit *object.Commit
 	depths := map[*object.Commit]int{}
 	stack := []object.Object{}
+	notShallow := map[plumbing.Hash]struct{}{}
 
 	for commit != nil || i < len(heads) || len(stack) > 0 {
 		if commit == nil {
@@ -356,7 +357,7 @@ func getShallowCommits(st storage.Storer, heads []plumbing.Hash, depth int, upd 
 			continue
 		}
 
-		upd.Unshallows = append(upd.Unshallows, commit.Hash)
+		notShallow[commit.Hash] = struct{}{}
 
 		parents := commit.Parents()
 		commit = nil
@@ -381,6 +382,14 @@ func getShallowCommits(st storage.Storer, heads []plumbing.Hash, depth int, upd 
 				commit = parent
 				curDepth = depths[commit]
 			}
+		}
+	}
+
+	// Only a commit the client holds as shallow can be unshallowed (upstream
+	// send_unshallow); any other "unshallow" line makes git's fetch-pack die.
+	for _, h := range clientShallows {
+		if _, ok := notShallow[h]; ok {
+			upd.Unshallows = append(upd.Unshallows, h)
 		}
 	}
 
@@ -747,7 +756,7 @@ func serveFetchV2(_ context.Context, st storage.Storer, w io.WriteCloser, args *
 				}
 			}
 			if computed {
-				err = getShallowCommits(st, wants, effectiveDepth, &shupd)
+				err = getShallowCommits(st, wants, nil, effectiveDepth, &shupd)
 			}
 		}
 		if err != nil {
